@@ -66,12 +66,12 @@ def decodeFuel : Nat → Bytes → List Rune
 def decodeUtf8 (b : Bytes) : List Rune := decodeFuel b.length b
 
 /-- a Unicode scalar value -/
-def validScalar (r : Rune) : Prop := r < 0xD800 ∨ (0xE000 ≤ r ∧ r < 0x110000)
+def validScalar (r : Nat) : Prop := r < 0xD800 ∨ (0xE000 ≤ r ∧ r < 0x110000)
 
-instance (r : Rune) : Decidable (validScalar r) := by unfold validScalar; exact inferInstance
+instance (r : Nat) : Decidable (validScalar r) := by unfold validScalar; exact inferInstance
 
 /-- `string(rune)` / `utf8.AppendRune`: surrogates and out-of-range values are written as U+FFFD. -/
-def encodeRune (r : Rune) : Bytes :=
+def encodeRune (r : Nat) : Bytes :=
   if r < 0x80 then [UInt8.ofNat r]
   else if r < 0x800 then [UInt8.ofNat (0xC0 + r / 64), UInt8.ofNat (0x80 + r % 64)]
   else if (0xD800 ≤ r ∧ r < 0xE000) ∨ 0x110000 ≤ r then [0xEF, 0xBF, 0xBD]
